@@ -1,38 +1,158 @@
 (* C15 -- Built-in key types order correctly and separators are valid.
-   This file contains only statements; every proof is `exact <lemma>`. *)
-From RV Require Import Base.Bytes Types.KeyTypes Types.KeyTypesP.
+   This file contains only statements; every proof is `exact <lemma>` (proofs: Types/KeyTypesP.v,
+   Types/Utf8P.v).  Model: Types/KeyTypes.v -- every built-in key type by structural recursion
+   (kty), so each theorem below holds for every nesting of Option / array / tuple, not a sample.
+
+   t ranges over kty with `wf_ty t = true` (the integer widths and tuple arities that exist in Rust);
+   `has_type t v` says v is a value of t (ranges, scalar values, lengths; composite encodings
+   below 4 GiB as redb's u32 offsets / varints require).
+   kcompare / separator / min_encoded_key / fixed_width / branch_separator mirror the byte-level
+   Rust functions; vcompare is the order of the VALUES. *)
+From RV Require Import Base.Bytes.
+From RV.Types Require Import Utf8 Utf8P KeyTypes KeyTypesP.
 Open Scope N_scope.
 
-Theorem c15_roundtrip : forall t v, has_type t v -> decode t (encode t v) = Some v.
+(* every value decodes to what was encoded *)
+Theorem c15_roundtrip : forall t, wf_ty t = true ->
+  forall v, has_type t v -> decode t (encode t v) = Some v.
 Proof. exact roundtrip. Qed.
 
-Theorem c15_compare_is_value_order : forall t a b,
-  has_type t a -> has_type t b -> kcompare t (encode t a) (encode t b) = vcompare t a b.
+(* the byte-level comparison orders encoded keys exactly as the values order *)
+Theorem c15_compare_is_value_order : forall t, wf_ty t = true ->
+  forall a b, has_type t a -> has_type t b -> kcompare t (encode t a) (encode t b) = vcompare t a b.
 Proof. exact compare_is_value_order. Qed.
 
-Theorem c15_separator_valid : forall t a b,
-  has_type t a -> has_type t b -> vcompare t a b = Lt ->
-  let s := separator t (encode t a) (encode t b) in
-  exists sv, has_type t sv /\ encode t sv = s /\ vcompare t a sv <> Gt /\ vcompare t sv b = Lt
-             /\ (length s <= length (encode t a))%nat.
-Proof. exact separator_valid. Qed.
+(* byte order of UTF-8 = order by Unicode scalar values (the &str / String instance, spelled out) *)
+Theorem c15_utf8_order : forall a b, forallb is_scalar a = true -> forallb is_scalar b = true ->
+  lex_cmp (utf8_encode a) (utf8_encode b) = lexc N.compare a b.
+Proof. exact utf8_order. Qed.
+
+(* the value order is a total order: Eq only on identical values (hence identical encodings),
+   antisymmetric, transitive *)
+Theorem c15_order_eq_same_value : forall t a b,
+  has_type t a -> has_type t b -> vcompare t a b = Eq -> a = b.
+Proof. exact (fun t => o_eq t (order_ok t)). Qed.
 
 Theorem c15_order_eq_same_encoding : forall t a b,
   has_type t a -> has_type t b -> vcompare t a b = Eq -> encode t a = encode t b.
 Proof. exact vcompare_eq_encode. Qed.
 
+Theorem c15_order_refl : forall t a, has_type t a -> vcompare t a a = Eq.
+Proof. exact (fun t => o_refl t (order_ok t)). Qed.
+
 Theorem c15_order_antisym : forall t a b,
   has_type t a -> has_type t b -> vcompare t b a = CompOpp (vcompare t a b).
-Proof. exact vcompare_antisym. Qed.
+Proof. exact (fun t => o_anti t (order_ok t)). Qed.
 
 Theorem c15_order_trans : forall t a b c,
   has_type t a -> has_type t b -> has_type t c ->
   vcompare t a b = Lt -> vcompare t b c = Lt -> vcompare t a c = Lt.
-Proof. exact vcompare_trans. Qed.
+Proof. exact (fun t => o_trans t (order_ok t)). Qed.
 
-(* non-vacuity: the hypotheses are met by concrete, non-trivial values *)
+(* hence Key::compare itself is transitive on encodings: iteration order = value order *)
+Theorem c15_compare_trans : forall t a b c, wf_ty t = true ->
+  has_type t a -> has_type t b -> has_type t c ->
+  kcompare t (encode t a) (encode t b) = Lt -> kcompare t (encode t b) (encode t c) = Lt ->
+  kcompare t (encode t a) (encode t c) = Lt.
+Proof. exact kcompare_trans. Qed.
+
+(* the separator of a < b is an encoding of a value sv of the same type (for &str: valid UTF-8),
+   a <= sv < b, and it is no longer than a's encoding *)
+Theorem c15_separator_valid : forall t, wf_ty t = true ->
+  forall a b, has_type t a -> has_type t b -> vcompare t a b = Lt ->
+  let s := separator t (encode t a) (encode t b) in
+  exists sv, has_type t sv /\ encode t sv = s /\ vcompare t a sv <> Gt /\ vcompare t sv b = Lt
+             /\ (length s <= length (encode t a))%nat.
+Proof. exact separator_valid. Qed.
+
+(* ... so from_bytes / compare accept it *)
+Theorem c15_separator_decodes : forall t a b, wf_ty t = true ->
+  has_type t a -> has_type t b -> vcompare t a b = Lt ->
+  exists sv, has_type t sv /\ decode t (separator t (encode t a) (encode t b)) = Some sv.
+Proof. exact separator_decodes. Qed.
+
+(* the &str instance spelled out: the cut is on a character boundary *)
+Theorem c15_str_separator_valid_utf8 : forall a b,
+  forallb is_scalar a = true -> forallb is_scalar b = true -> lexc N.compare a b = Lt ->
+  exists sv, forallb is_scalar sv = true /\ utf8_encode sv = str_sep (utf8_encode a) (utf8_encode b) /\
+             lexc N.compare a sv <> Gt /\ lexc N.compare sv b = Lt /\
+             (length (str_sep (utf8_encode a) (utf8_encode b)) <= length (utf8_encode a))%nat.
+Proof. exact str_sep_valid. Qed.
+
+(* lookups route correctly: every key k <= a compares <= s, every key k >= b compares > s,
+   under the byte-level Key::compare *)
+Theorem c15_routing_ok : forall t a b k, wf_ty t = true ->
+  has_type t a -> has_type t b -> has_type t k -> vcompare t a b = Lt ->
+  let s := separator t (encode t a) (encode t b) in
+  (vcompare t k a <> Gt -> kcompare t (encode t k) s <> Gt) /\
+  (vcompare t b k <> Gt -> kcompare t s (encode t k) = Lt).
+Proof. exact routing_ok. Qed.
+
+(* what the B-tree stores (branch_separator): as above, and fixed width types are never shortened *)
+Theorem c15_branch_separator_valid : forall t, wf_ty t = true ->
+  forall a b, has_type t a -> has_type t b -> vcompare t a b = Lt ->
+  let s := branch_separator t (encode t a) (encode t b) in
+  exists sv, has_type t sv /\ encode t sv = s /\ vcompare t a sv <> Gt /\ vcompare t sv b = Lt
+             /\ (length s <= length (encode t a))%nat
+             /\ (forall w, fixed_width t = Some w -> length s = w).
+Proof. exact branch_separator_valid. Qed.
+
+(* fixed_width is the length of every encoding *)
+Theorem c15_fixed_width : forall t v w,
+  has_type t v -> fixed_width t = Some w -> length (encode t v) = w.
+Proof. exact encode_fixed_len. Qed.
+
+(* min_encoded_key is the encoding of a least value *)
+Theorem c15_min_encoded_key : forall t m, wf_ty t = true -> min_encoded_key t = Some m -> size_ok m = true ->
+  exists mv, has_type t mv /\ encode t mv = m /\ forall v, has_type t v -> vcompare t mv v <> Gt.
+Proof. exact min_key_valid. Qed.
+
+(* ---- non-vacuity: the hypotheses are met by concrete, non-trivial values, and the model computes
+   what the Rust unit tests expect *)
+
+Definition vstr (l : list N) := VStr l.
+
 Example c15_nonvacuous_bytes :
   has_type TBytes (VBytes [1;2;3;4;5]) /\ has_type TBytes (VBytes [1;2;9;9;9;9]) /\
   vcompare TBytes (VBytes [1;2;3;4;5]) (VBytes [1;2;9;9;9;9]) = Lt /\
   separator TBytes [1;2;3;4;5] [1;2;9;9;9;9] = [1;2;9].
+Proof. vm_compute. repeat split; reflexivity. Qed.
+
+(* ("aaaaaa", "a\u{e9}zz") -> "a\u{e9}": the cut inside a two byte character keeps the character *)
+Example c15_nonvacuous_str :
+  has_type TStr (vstr [97;97;97;97;97;97]) /\ has_type TStr (vstr [97;233;122;122]) /\
+  vcompare TStr (vstr [97;97;97;97;97;97]) (vstr [97;233;122;122]) = Lt /\
+  separator TStr (encode TStr (vstr [97;97;97;97;97;97])) (encode TStr (vstr [97;233;122;122])) = encode TStr (vstr [97;233]) /\
+  encode TStr (vstr [97;233]) = [97;195;169].
+Proof. vm_compute. repeat split; reflexivity. Qed.
+
+(* [Option<&str>;2]: [Some("aaaa"),Some("zzzz")] < [Some("bbbb"),Some("yyyy")] -> [Some("b"),None] *)
+Example c15_nonvacuous_array_of_option :
+  let t := TArr 2 (TOpt TStr) in
+  let a := VList [VSome (vstr [97;97;97;97]); VSome (vstr [122;122;122;122])] in
+  let b := VList [VSome (vstr [98;98;98;98]); VSome (vstr [121;121;121;121])] in
+  wf_ty t = true /\ has_type t a /\ has_type t b /\ vcompare t a b = Lt /\
+  separator t (encode t a) (encode t b) = encode t (VList [VSome (vstr [98]); VNone]) /\
+  kcompare t (encode t a) (encode t b) = Lt.
+Proof. vm_compute. repeat split; reflexivity. Qed.
+
+(* signed integers: -1 < 0 although 0xff > 0x00 bytewise; i64 extremes *)
+Example c15_nonvacuous_signed :
+  has_type (TI 1) (VI (-1)) /\ has_type (TI 1) (VI 0) /\ encode (TI 1) (VI (-1)) = [255] /\
+  kcompare (TI 1) (encode (TI 1) (VI (-1))) (encode (TI 1) (VI 0)) = Lt /\
+  has_type (TI 8) (VI (-9223372036854775808)) /\ has_type (TI 8) (VI 9223372036854775807) /\
+  kcompare (TI 8) (encode (TI 8) (VI (-9223372036854775808))) (encode (TI 8) (VI 9223372036854775807)) = Lt.
+Proof. vm_compute. repeat split; reflexivity. Qed.
+
+(* a variable width tuple inside an Option: (&str, u8, &[u8]) with the varint length header *)
+Example c15_nonvacuous_tuple :
+  let t := TOpt (TTup [TStr; TU 1; TBytes]) in
+  let a := VSome (VList [vstr [104;105]; VU 7; VBytes [1;2]]) in
+  let b := VSome (VList [vstr [104;105]; VU 8; VBytes []]) in
+  wf_ty t = true /\ has_type t a /\ has_type t b /\
+  encode t a = [1; 2; 104; 105; 7; 1; 2] /\
+  vcompare t a b = Lt /\ kcompare t (encode t a) (encode t b) = Lt /\
+  decode t (encode t a) = Some a /\
+  fixed_width t = None /\ fixed_width (TOpt (TTup [TU 2; TBool])) = Some 4%nat /\
+  encode (TOpt (TU 4)) VNone = [0;0;0;0;0] /\ min_encoded_key (TOpt (TU 8)) = Some [0;0;0;0;0;0;0;0;0].
 Proof. vm_compute. repeat split; reflexivity. Qed.
